@@ -1395,3 +1395,372 @@ Definition R (m : Z) (th : list Z) (progs : list (list op)) (s : sysD) : Prop :=
 
 Lemma R_inv m th progs s : R m th progs s -> Inv (gl s) (thr s).
 Proof. intros H. eapply reachable_inv; [apply Inv_step|apply Inv_init|exact H]. Qed.
+
+(* ================================================================== *)
+(* C06: exactly once, exclusively, in order, not stranded, futures      *)
+(* ================================================================== *)
+Section Theorems.
+  Variables (m : Z) (th : list Z) (progs : list (list op)).
+  Notation RR := (R m th progs).
+
+  (* a submitted functor is invoked at most once *)
+  Lemma exactly_once_le s tk : RR s -> (tcount (gh (gl s)) tk <= 1)%nat.
+  Proof. intros HR. rewrite (S9 _ _ (I_S _ _ (R_inv _ _ _ _ HR))). destruct (texec (gh (gl s)) tk); lia. Qed.
+
+  (* ... and exactly once as soon as no submit call is in progress, the queue is empty and no drain is under way *)
+  Lemma exactly_once_drained s : RR s ->
+    (forall u, ctask (pcof (thr s) u) = None) -> (forall u, lpend (pcof (thr s) u) = []) -> queue (gl s) = [] ->
+    forall tk, (tk < ntasks (gl s))%nat -> tcount (gh (gl s)) tk = 1%nat /\ texec (gh (gl s)) tk <> None.
+  Proof.
+    intros HR Hc Hlp Hq tk Hk. pose proof (I_S _ _ (R_inv _ _ _ _ HR)) as HS.
+    assert (texec (gh (gl s)) tk <> None) as He.
+    { destruct (tret (gh (gl s)) tk) as [r|] eqn:Er.
+      - destruct (S1r _ _ HS tk r Er) as [_ [B|[p [B1 B2]]]]; [exact B|].
+        intros He. destruct (S6 _ _ HS tk) as [B|[u B]]; [congruence|exact He| |].
+        + rewrite Hq in B. destruct B.
+        + rewrite Hlp in B. destruct B.
+      - pose proof (S3 _ _ HS tk Hk Er) as C. rewrite Hc in C. discriminate. }
+    split; [|exact He]. rewrite (S9 _ _ HS). destruct (texec (gh (gl s)) tk); congruence.
+  Qed.
+  Lemma exactly_once_finished s : RR s -> (forall u, pcof (thr s) u = Idle) -> queue (gl s) = [] ->
+    forall tk, (tk < ntasks (gl s))%nat -> tcount (gh (gl s)) tk = 1%nat.
+  Proof.
+    intros HR Hi Hq tk Hk. apply (exactly_once_drained s HR); auto; intros u; rewrite Hi; reflexivity.
+  Qed.
+
+  (* a running functor - on the direct path or out of the queue - owns the outer mutex exclusively:
+     no shared lock is held by anybody, nobody else runs a functor, no other payload window is open *)
+  Lemma running_exclusive s t : RR s -> inbody (pcof (thr s) t) = true ->
+    owner (gl s) = Some t /\
+    (forall u, shl (locof (thr s) u) = O) /\
+    (forall u, inbody (pcof (thr s) u) = true -> u = t) /\
+    (forall u, u <> t -> rdopen (pcof (thr s) u) = false /\ wropen (pcof (thr s) u) = false).
+  Proof.
+    intros HR Hb. pose proof (R_inv _ _ _ _ HR) as [H1 HW HS HP HF].
+    pose proof (inbody_holdsX _ Hb) as Hx. pose proof (excl_facts _ _ _ H1 Hx) as E.
+    split; [apply (X1 _ _ (I1X _ _ H1) t Hx)|]. split; [intros u; apply E|]. split.
+    - intros u Hu. apply E. apply inbody_holdsX. exact Hu.
+    - intros u Hne. destruct (E u) as [E1 E2]. split.
+      + destruct (rdopen (pcof (thr s) u)) eqn:Er; [exfalso|reflexivity].
+        destruct (rd_holds _ u (I1H _ _ H1) Er) as [C|C]; [auto|lia].
+      + destruct (wropen (pcof (thr s) u)) eqn:Ew; [exfalso|reflexivity]. apply wropen_holdsX in Ew. auto.
+  Qed.
+
+  (* real-time order: if f's submit call returned before k's began, f is invoked before k *)
+  Lemma order_real_time s f k r e' : RR s ->
+    tret (gh (gl s)) f = Some r -> (r < tinv (gh (gl s)) k)%nat -> (k < ntasks (gl s))%nat ->
+    texec (gh (gl s)) k = Some e' -> exists e, texec (gh (gl s)) f = Some e /\ (e < e')%nat.
+  Proof. intros HR. apply (S10 _ _ (I_S _ _ (R_inv _ _ _ _ HR))). Qed.
+  (* per-submitter order: two submissions of one thread are invoked in submission order *)
+  Lemma order_same_thread s f k e' : RR s ->
+    (f < k)%nat -> (k < ntasks (gl s))%nat -> tsub (gh (gl s)) f = tsub (gh (gl s)) k ->
+    texec (gh (gl s)) k = Some e' -> exists e, texec (gh (gl s)) f = Some e /\ (e < e')%nat.
+  Proof.
+    intros HR Hfk Hk Hs He. pose proof (R_inv _ _ _ _ HR) as [H1 HW HS HP HF].
+    destruct (HP f k Hfk Hk Hs) as [r [B1 B2]]. eapply (S10 _ _ HS); eauto.
+  Qed.
+
+  (* the flag / queue protocol: a queued task is announced by the flag unless its submitter is still between
+     its push and its flag store, or a drainer is between clearing the flag and swapping the queue out *)
+  Lemma not_stranded s : RR s ->
+    (forall u, cphase (pcof (thr s) u) <> PhPushed) -> (forall u, clr (pcof (thr s) u) = false) ->
+    queue (gl s) <> [] -> flag (gl s) = true.
+  Proof.
+    intros HR Hph Hcl Hq. pose proof (I_S _ _ (R_inv _ _ _ _ HR)) as HS.
+    destruct (queue (gl s)) as [|x q] eqn:Eq; [congruence|].
+    assert (In x (queue (gl s))) as Hin by (rewrite Eq; left; reflexivity).
+    destruct (S7 _ _ HS x Hin) as [B|[B|[u B]]]; [exfalso|exact B|rewrite Hcl in B; discriminate].
+    destruct (S4 _ _ HS (tsub (gh (gl s)) x) x) as (C1 & C2 & C3); [apply in_or_app; right; exact Hin|].
+    pose proof (S3 _ _ HS x C1 B) as D. destruct (S2 _ _ HS _ _ D) as (_ & _ & _ & D4).
+    specialize (Hph (tsub (gh (gl s)) x)). destruct (cphase (pcof (thr s) (tsub (gh (gl s)) x))); tauto.
+  Qed.
+
+  (* futures: the cell of a task is set at most once; once the functor is over it holds the result or the exception *)
+  Lemma future_set_once s tk : RR s -> (tfsets (gh (gl s)) tk <= 1)%nat /\
+    (tfsets (gh (gl s)) tk = O <-> tfut (gl s) tk = FPending).
+  Proof.
+    intros HR. pose proof (R_inv _ _ _ _ HR) as [H1 HW HS HP HF].
+    destruct (texec (gh (gl s)) tk) as [e|] eqn:Ee.
+    - destruct (F3 _ _ HF tk) as [[B1 B2]|[u B]]; [congruence| |].
+      + split; [lia|]. split; [lia|]. destruct B2 as [B2|B2]; rewrite B2; discriminate.
+      + destruct (F2 _ _ HF u tk B) as (_ & C2 & C3 & _). split; [lia|]. tauto.
+    - destruct (F1 _ _ HF tk Ee) as [B1 B2]. split; [lia|tauto].
+  Qed.
+  Lemma future_result s tk : RR s -> texec (gh (gl s)) tk <> None -> (forall u, rtask (pcof (thr s) u) <> Some tk) ->
+    tfsets (gh (gl s)) tk = 1%nat /\
+    (tfut (gl s) tk = FExn \/ tfut (gl s) tk = FVal (tpre (gh (gl s)) tk * 16 + tfid (gl s) tk)).
+  Proof.
+    intros HR He Hr. pose proof (R_inv _ _ _ _ HR) as [H1 HW HS HP HF].
+    destruct (F3 _ _ HF tk He) as [B|[u B]]; [exact B|]. exfalso. apply (Hr u B).
+  Qed.
+  Lemma future_pending_unexecuted s tk : RR s -> texec (gh (gl s)) tk = None -> tfut (gl s) tk = FPending.
+  Proof. intros HR He. apply (F1 _ _ (I_F _ _ (R_inv _ _ _ _ HR)) tk He). Qed.
+  (* the payload is the log of the functors that completed, in order of completion *)
+  Lemma payload_is_log s : RR s -> pay (gl s) = enc (tfid (gl s)) (donelog (gh (gl s))).
+  Proof. intros HR. apply (F5 _ _ (I_F _ _ (R_inv _ _ _ _ HR))). Qed.
+
+  (* ---------- C07 / C15: windows ---------- *)
+  Lemma windows_disjoint s u v : RR s -> u <> v -> wropen (pcof (thr s) u) = true ->
+    rdopen (pcof (thr s) v) = false /\ wropen (pcof (thr s) v) = false.
+  Proof.
+    intros HR Hne Hw. assert (inbody (pcof (thr s) u) = true) as Hb by (destruct (pcof (thr s) u); try discriminate; reflexivity).
+    destruct (running_exclusive s u HR Hb) as (_ & _ & _ & E). apply E. auto.
+  Qed.
+  Lemma no_fault s : RR s -> faulted (gl s) = false.
+  Proof. intros HR. apply (W4 _ _ (I_W _ _ (R_inv _ _ _ _ HR))). Qed.
+  Lemma reader_sees_clean s t : RR s -> rdopen (pcof (thr s) t) = true -> dirty (gl s) = false /\
+    forall u, wropen (pcof (thr s) u) = false.
+  Proof.
+    intros HR Hr. pose proof (R_inv _ _ _ _ HR) as [H1 HW HS HP HF].
+    assert (forall u, wropen (pcof (thr s) u) = false) as Hn.
+    { intros u. destruct (wropen (pcof (thr s) u)) eqn:Ew; [exfalso|reflexivity].
+      destruct (Nat.eq_dec u t) as [->|Hne]; [destruct (pcof (thr s) t); discriminate|].
+      destruct (windows_disjoint s u t HR Hne Ew). congruence. }
+    split; [|exact Hn]. destruct (dirty (gl s)) eqn:D; [|reflexivity].
+    destruct (W3 _ _ HW D) as [a Ha]. rewrite Hn in Ha. discriminate.
+  Qed.
+
+  (* ---------- C02: readers / writers ---------- *)
+  (* while a shared handle (a client's, or the one inside load) is alive, nobody is inside an exclusive section *)
+  Lemma rw_exclusion s t : RR s -> (1 <= shl (locof (thr s) t))%nat -> forall u, holdsX (pcof (thr s) u) = false.
+  Proof.
+    intros HR Hs u. pose proof (R_inv _ _ _ _ HR) as [H1 HW HS HP HF].
+    destruct (holdsX (pcof (thr s) u)) eqn:Hx; [exfalso|reflexivity].
+    destruct (excl_facts _ _ _ H1 Hx t) as [E _]. lia.
+  Qed.
+End Theorems.
+
+Section StepTheorems.
+  Variables (m : Z) (th : list Z) (progs : list (list op)).
+  Notation RR := (R m th progs).
+
+  (* ---------- C02 ---------- *)
+  (* ... and no step of any thread enters an exclusive section: no modification can start *)
+  Lemma no_exclusive_starts s t u c l g' l' es : RR s -> (1 <= shl (locof (thr s) t))%nat ->
+    nth_error (thr s) u = Some l -> tstep u c (gl s) l = Some (g', l', es) -> holdsX (at_ l') = false.
+  Proof.
+    intros HR Hs Hl Hst. pose proof (rw_exclusion m th progs s t HR Hs u) as Hxu. rewrite (pcof_at _ _ _ Hl) in Hxu.
+    pose proof (R_inv _ _ _ _ HR) as [H1 HW HS HP HF]. pose proof (I1X _ _ H1) as HX.
+    assert (free_x (gl s) = false) as Hfx.
+    { destruct (free_x (gl s)) eqn:E; [exfalso|reflexivity]. apply free_x_true in E as [E1 E2].
+      destruct (shcap (gl s)) eqn:Hc.
+      - specialize (E2 eq_refl). rewrite (X3 _ _ HX Hc) in E2. pose proof (sum_term_le shl (thr s) t eq_refl). lia.
+      - destruct (X5 _ _ HX Hc t Hs) as [C _]. congruence. }
+    destruct l as [pr p hd fu]. cbn [at_] in Hxu.
+    step_cases Hst; cbn [at_]; try reflexivity; try discriminate; try congruence.
+  Qed.
+
+  (* with a shared-capable mutex a shared acquisition is enabled whenever there is no exclusive owner,
+     however many other sharers there are *)
+  Lemma readers_share (g : glob) t c l a : shcap g = true -> owner g = None -> at_ l = S_acq a ->
+    exists r, tstep t c g l = Some r.
+  Proof.
+    intros Hc Ho Hp. unfold tstep, tstep0. rewrite Hp. unfold acq_shared, free_s. rewrite Hc, Ho.
+    destruct a; cbn; eexists; reflexivity.
+  Qed.
+
+  (* ---------- C15: load ---------- *)
+  Lemma load_in_shared_section (l : loc) : holdsS (at_ l) = true -> (1 <= shl l)%nat.
+  Proof. unfold shl. intros ->. lia. Qed.
+  Lemma load_atomic s t l : RR s -> nth_error (thr s) t = Some l -> at_ l = L_rde ->
+    (1 <= shl l)%nat /\ dirty (gl s) = false /\ (forall u, wropen (pcof (thr s) u) = false) /\
+    (forall u, holdsX (pcof (thr s) u) = false) /\
+    pay (gl s) = enc (tfid (gl s)) (donelog (gh (gl s))) /\
+    forall c, exists g' l', tstep t c (gl s) l = Some (g', l', [E K_RD_END O_PAY (pay (gl s))]) /\ at_ l' = L_unlock (pay (gl s)).
+  Proof.
+    intros HR Hl Hp. assert (1 <= shl l)%nat as Hs by (apply load_in_shared_section; rewrite Hp; reflexivity).
+    assert (rdopen (pcof (thr s) t) = true) as Hr by (rewrite (pcof_at _ _ _ Hl), Hp; reflexivity).
+    destruct (reader_sees_clean m th progs s t HR Hr) as [D W].
+    split; [exact Hs|]. split; [exact D|]. split; [exact W|]. split.
+    - apply (rw_exclusion m th progs s t HR). rewrite (locof_at _ _ _ Hl). exact Hs.
+    - split; [apply (payload_is_log m th progs s HR)|]. intros c. unfold tstep, tstep0, rd_end, fault_if. rewrite Hp, D. cbn.
+      eexists; eexists; split; reflexivity.
+  Qed.
+  Lemma load_returns_read_value (g : glob) t c l v : at_ l = L_unlock v ->
+    exists g' l' e0, tstep t c g l = Some (g', l', [e0; ret v]) /\ at_ l' = Idle.
+  Proof.
+    intros Hp. unfold tstep, tstep0, rel_shared. rewrite Hp.
+    destruct (shcap g); cbn; (eexists; eexists; eexists; split; reflexivity).
+  Qed.
+
+  (* ---------- C20: exceptions ---------- *)
+  (* direct path of modify_detach: the exception leaves the functor, the unique_lock is released during
+     unwinding and the exception reaches the caller *)
+  Lemma exn_direct_propagates (g : glob) t c l tk : at_ l = F_call (BD tk) -> tasync g tk = false ->
+    existsb (Z.eqb (calls g)) (throws g) = true ->
+    exists g' l', tstep t c g l = Some (g', l', [E K_CALL 0 (tfid g tk); E K_THROW 0 (calls g)]) /\
+                  at_ l' = M_unlock tk true /\ tfut g' tk = FExn.
+  Proof.
+    intros Hp Ha Ht. unfold tstep, tstep0. rewrite Hp. cbn [btask]. rewrite Ht. unfold body_done. rewrite Ha. cbn.
+    eexists; eexists; split; [reflexivity|]. split; [reflexivity|]. apply fupd_eq.
+  Qed.
+  Lemma exn_direct_unlocks (g : glob) t c l tk : at_ l = M_unlock tk true ->
+    exists g' l', tstep t c g l = Some (g', l', [E K_UNLOCK O_MTX 0; E K_CATCH 0 0]) /\ at_ l' = Idle /\ owner g' = None.
+  Proof. intros Hp. unfold tstep, tstep0. rewrite Hp. cbn. eexists; eexists; split; [reflexivity|]. split; reflexivity. Qed.
+  (* modify_async on the direct path, and every queued task: the exception is stored in the future, the call /
+     the drain goes on (next: release the task's mutex, then the next task of the local list) *)
+  Lemma exn_captured (g : glob) t c l b : at_ l = F_call b ->
+    (match b with BD tk => tasync g tk = true | BQ _ _ _ => True end) ->
+    existsb (Z.eqb (calls g)) (throws g) = true ->
+    exists g' l', tstep t c g l = Some (g', l', [E K_CALL 0 (tfid g (btask b)); E K_THROW 0 (calls g)]) /\
+                  tfut g' (btask b) = FExn /\
+                  at_ l' = match b with BD tk => M_unlock tk false | BQ c0 tk r => T_unlock c0 tk r end.
+  Proof.
+    intros Hp Ha Ht. unfold tstep, tstep0. rewrite Hp, Ht. unfold body_done.
+    destruct b as [tk|c0 tk r]; cbn [btask]; [rewrite Ha|]; cbn;
+      (eexists; eexists; split; [reflexivity|]; split; [apply fupd_eq|reflexivity]).
+  Qed.
+  Lemma drain_continues (g : glob) t c l c0 tk r : at_ l = T_unlock c0 tk r ->
+    exists g' l', tstep t c g l = Some (g', l', [E K_UNLOCK (O_TASK tk) 0]) /\ at_ l' = after_drain c0 r /\ tmtx g' tk = None.
+  Proof.
+    intros Hp. unfold tstep, tstep0. rewrite Hp. cbn. eexists; eexists; split; [reflexivity|]. split; [reflexivity|apply fupd_eq].
+  Qed.
+  (* a thread at top level owns no mutex of the library, except through a client handle on a plain mutex *)
+  Lemma idle_holds_nothing s t : RR s -> pcof (thr s) t = Idle ->
+    lmtx (gl s) <> Some t /\ (forall k, tmtx (gl s) k <> Some t) /\
+    (owner (gl s) = Some t -> shcap (gl s) = false /\ nown (hand (locof (thr s) t)) = 1%nat).
+  Proof.
+    intros HR Hp. pose proof (R_inv _ _ _ _ HR) as [[HX HL HT HH] HW HS HP HF]. split; [|split].
+    - intros E. pose proof (L2 _ _ HL t E) as C. rewrite Hp in C. discriminate.
+    - intros k E. pose proof (T2 _ _ HT k t E) as C. rewrite Hp in C. discriminate.
+    - intros E. destruct (X2 _ _ HX t E) as [C|[C1 C2]]; [rewrite Hp in C; discriminate|].
+      split; [exact C1|]. unfold shl in C2. unfold pcof in Hp. rewrite Hp in C2. cbn in C2. lia.
+  Qed.
+
+  (* ---------- C07: every atomic operation of the model is seq_cst (and only atomics carry an order) ---------- *)
+  Definition is_atomic_kind (k : Z) : bool := (2 <=? k) && (k <=? 7).
+  Lemma all_atomics_seq_cst t c (g : glob) l g' l' es : tstep t c g l = Some (g', l', es) ->
+    forall e, In e es -> emo e = (if is_atomic_kind (ek e) then MO_SEQ_CST else MO_NA) /\
+                         (is_atomic_kind (ek e) = true -> eo e = O_FLAG).
+  Proof.
+    intros Hs e Hin. destruct l as [pr p hd fu].
+    step_cases Hs; unfold fault_if in Hin;
+      repeat match type of Hin with context [if ?b then _ else _] => destruct b end;
+      repeat (cbn in Hin; try rewrite in_app_iff in Hin;
+              match type of Hin with
+              | _ \/ _ => destruct Hin as [Hin|Hin]
+              | False => destruct Hin
+              | _ = e => subst e; cbn; split; [reflexivity|intros; try reflexivity; try discriminate]
+              end).
+  Qed.
+End StepTheorems.
+
+(* ================================================================== *)
+(* Progress: try-locks never block, lock holders can move, quiescent states *)
+(* ================================================================== *)
+Notation quiescentD := (quiescent glob loc tstep).
+
+Definition always_on (p : pc) : bool :=
+  match p with Idle | Q_lockt _ | Q_lockl _ | DI_lockl _ | T_lock _ _ _ | S_acq _ => false | _ => true end.
+
+Lemma always_on_step t c g l : always_on (at_ l) = true -> exists r, tstep t c g l = Some r.
+Proof.
+  destruct l as [pr p hd fu]. cbn [at_]. intros H.
+  destruct p; try discriminate; unfold tstep, tstep0, rd_begin, rd_end, wr_begin, wr_end, rel_shared; cbn [at_ prog hand futs];
+    repeat match goal with |- context [if ?b then _ else _] => destruct b end; eexists; reflexivity.
+Qed.
+
+(* every try-lock of the library returns at once: these steps are never disabled *)
+Lemma trylock_never_blocks t c g l :
+  (match at_ l with M_try _ | P_try _ | S_acq (AcTry _) => True | _ => False end) -> exists r, tstep t c g l = Some r.
+Proof.
+  destruct l as [pr p hd fu]. cbn [at_]. destruct p; try contradiction; [apply always_on_step; reflexivity..|].
+  destruct a; try contradiction. intros _. unfold tstep, tstep0, acq_shared. cbn [at_].
+  destruct (shcap g); eexists; reflexivity.
+Qed.
+(* a timed shared try-lock returns at the latest when its time is up (choice 2) *)
+Lemma timed_gives_up t g l h : at_ l = S_acq (AcFor h) -> exists r, tstep t 2 g l = Some r.
+Proof.
+  intros Hp. unfold tstep, tstep0, acq_shared. rewrite Hp. rewrite orb_true_r. destruct (shcap g); eexists; reflexivity.
+Qed.
+
+Lemma pc_has_loc ls u : pcof ls u <> Idle -> exists l, nth_error ls u = Some l /\ at_ l = pcof ls u.
+Proof.
+  unfold pcof, locof. destruct (nth_error ls u) as [l|]; [eexists; split; eauto|]. cbn. congruence.
+Qed.
+Lemma always_on_enabled (s : sysD) u c : always_on (pcof (thr s) u) = true -> enabledD s u c.
+Proof.
+  intros H. destruct (pc_has_loc (thr s) u) as [l [Hl Hp]]; [intros E; rewrite E in H; discriminate|].
+  rewrite <- Hp in H. destruct (always_on_step u c (gl s) l H) as [r Hr]. exists l, r. auto.
+Qed.
+
+Section Progress.
+  Variables (m : Z) (th : list Z) (progs : list (list op)).
+  Notation RR := (R m th progs).
+
+  Lemma list_holder_moves s a c : RR s -> lmtx (gl s) = Some a -> enabledD s a c.
+  Proof.
+    intros HR E. pose proof (L2 _ _ (I1L _ _ (I_1 _ _ (R_inv _ _ _ _ HR))) a E) as H.
+    apply always_on_enabled. destruct (pcof (thr s) a); try discriminate; reflexivity.
+  Qed.
+  Lemma task_holder_moves s k a c : RR s -> tmtx (gl s) k = Some a -> enabledD s a c.
+  Proof.
+    intros HR E. pose proof (T2 _ _ (I1T _ _ (I_1 _ _ (R_inv _ _ _ _ HR))) k a E) as H.
+    apply always_on_enabled. destruct (pcof (thr s) a); try discriminate; reflexivity.
+  Qed.
+  (* a thread inside an exclusive section moves, or waits for an inner mutex whose holder moves *)
+  Lemma exclusive_section_progress s u : RR s -> holdsX (pcof (thr s) u) = true -> exists b, enabledD s b 0.
+  Proof.
+    intros HR Hx. destruct (always_on (pcof (thr s) u)) eqn:Ea; [exists u; apply always_on_enabled; exact Ea|].
+    destruct (pc_has_loc (thr s) u) as [l [Hl Hp]]; [intros E; rewrite E in Hx; discriminate|].
+    destruct (pcof (thr s) u) eqn:Epc; try discriminate.
+    - destruct (lmtx (gl s)) as [b|] eqn:Em; [exists b; eapply list_holder_moves; eauto|].
+      exists u, l. unfold tstep, tstep0. rewrite Hp, Em. eexists; split; [exact Hl|reflexivity].
+    - destruct (tmtx (gl s) tk) as [b|] eqn:Em; [exists b; eapply task_holder_moves; eauto|].
+      exists u, l. unfold tstep, tstep0. rewrite Hp, Em. eexists; split; [exact Hl|reflexivity].
+  Qed.
+
+  (* when nothing can move (spurious wake-ups do not exist in this component): every thread has finished, or
+     waits - with a plain mutex - for the blocking shared acquisition behind a client handle that is still alive *)
+  Lemma quiescent_shape s t l : RR s -> quiescentD s -> nth_error (thr s) t = Some l ->
+    fin l = true \/
+    (exists a, at_ l = S_acq a /\ shcap (gl s) = false /\
+               exists u, owner (gl s) = Some u /\ holdsX (pcof (thr s) u) = false /\ nown (hand (locof (thr s) u)) = 1%nat).
+  Proof.
+    intros HR HQ Hl. pose proof (R_inv _ _ _ _ HR) as [[HX HL HT HH] HW HS HP HF].
+    assert (Hno : forall b, ~ enabledD s b 0) by (intros b; apply HQ; lia).
+    assert (D0 : tstep t 0 (gl s) l = None).
+    { destruct (tstep t 0 (gl s) l) as [r|] eqn:E; [|reflexivity]. exfalso. apply (Hno t). exists l, r. auto. }
+    assert (D2 : tstep t 2 (gl s) l = None).
+    { destruct (tstep t 2 (gl s) l) as [r|] eqn:E; [|reflexivity]. exfalso. apply (HQ t 2%nat); [lia|]. exists l, r. auto. }
+    destruct (always_on (at_ l)) eqn:Ea.
+    { destruct (always_on_step t 0 (gl s) l Ea) as [r Hr]. congruence. }
+    destruct l as [pr p hd fu]. cbn [at_] in *. destruct p; try discriminate.
+    - (* Idle *) destruct pr; [left; reflexivity|]. unfold tstep, tstep0 in D0. cbn in D0.
+      destruct (start_op t (gl s) _ o) as [[? ?] ?]. discriminate.
+    - (* Q_lockt *) exfalso. unfold tstep, tstep0 in D0. cbn in D0. destruct (tmtx (gl s) tk) as [b|] eqn:E; [|discriminate].
+      apply (Hno b). eapply task_holder_moves; eauto.
+    - (* Q_lockl *) exfalso. unfold tstep, tstep0 in D0. cbn in D0. destruct (lmtx (gl s)) as [b|] eqn:E; [|discriminate].
+      apply (Hno b). eapply list_holder_moves; eauto.
+    - (* DI_lockl *) exfalso. unfold tstep, tstep0 in D0. cbn in D0. destruct (lmtx (gl s)) as [b|] eqn:E; [|discriminate].
+      apply (Hno b). eapply list_holder_moves; eauto.
+    - (* T_lock *) exfalso. unfold tstep, tstep0 in D0. cbn in D0. destruct (tmtx (gl s) tk) as [b|] eqn:E; [|discriminate].
+      apply (Hno b). eapply task_holder_moves; eauto.
+    - (* S_acq *)
+      assert (Hown : exists u, owner (gl s) = Some u).
+      { unfold tstep, tstep0, acq_shared, free_x, free_s in D0. cbn [at_] in D0.
+        destruct (owner (gl s)) as [u|]; [eauto|exfalso].
+        destruct (shcap (gl s)); destruct a; cbn in D0; discriminate. }
+      destruct Hown as [u Hu].
+      destruct (X2 _ _ HX u Hu) as [C|[C1 C2]].
+      + exfalso. destruct (exclusive_section_progress s u HR C) as [b Hb]. apply (Hno b Hb).
+      + right. exists a. split; [reflexivity|]. split; [exact C1|]. exists u. split; [exact Hu|].
+        destruct (X5 _ _ HX C1 u) as (_ & C3 & _); [lia|]. split; [exact C3|].
+        unfold shl in C2. destruct (holdsS (at_ (locof (thr s) u))) eqn:Ehs; [exfalso|lia].
+        apply (Hno u). apply always_on_enabled. unfold pcof. destruct (at_ (locof (thr s) u)); try discriminate; reflexivity.
+  Qed.
+
+  (* hence: with a shared-capable mutex a quiescent state is a finished one, whatever the clients do with their handles ... *)
+  Lemma no_deadlock_shared s : RR s -> quiescentD s -> shcap (gl s) = true -> all_fin glob loc fin s = true.
+  Proof.
+    intros HR HQ Hc. unfold all_fin. apply forallb_forall. intros l Hin. apply In_nth_error in Hin as [t Hl].
+    destruct (quiescent_shape s t l HR HQ Hl) as [H|[a [_ [C _]]]]; [exact H|congruence].
+  Qed.
+  (* ... and with any mutex, programs whose handles have all been released have finished *)
+  Lemma no_deadlock_released s : RR s -> quiescentD s -> (forall u, nown (hand (locof (thr s) u)) = O) ->
+    all_fin glob loc fin s = true.
+  Proof.
+    intros HR HQ Hn. unfold all_fin. apply forallb_forall. intros l Hin. apply In_nth_error in Hin as [t Hl].
+    destruct (quiescent_shape s t l HR HQ Hl) as [H|[a [_ [_ [u [_ [_ C]]]]]]]; [exact H|]. rewrite Hn in C. discriminate.
+  Qed.
+End Progress.
